@@ -947,6 +947,14 @@ theorem SO3Log_one (eps : ℝ) : SO3Log eps (Quat.one : Quat ℝ) = Vec3.zero :=
   rw [this, Vec3.zero_smul]
 
 
+/-! ## batches and call histories (model side of the hardening classes "item-wise = batched", "no state between calls") -/
+
+/-- a batch is a list of items and a batched op is the item op mapped over it (broadcasting itself is C06) -/
+def batchOp {β γ : Type} (f : β → γ) (xs : List β) : List γ := xs.map f
+/-- a call history on one process: every call brings its own threshold `eps` (its dtype) and its own argument -/
+def runCalls {β γ : Type} (f : ℝ → β → γ) (calls : List (ℝ × β)) : List γ := calls.map (fun c => f c.1 c.2)
+
+
 /-! ## fixed sample values used by the non-vacuity examples of `Proofs/Props/C02.lean` -/
 namespace C02Ex
 
